@@ -1,9 +1,9 @@
 #!/bin/bash
 # Runs every stored seeded change against the check of its property (and extra checks named in seeded/<id>/also)
-# and prints one line per run. The changes are applied to /repo's working tree and undone straight afterwards.
+# and prints one line per run. Each change is applied in a scratch worktree of /repo (lib/seedrun2.sh) that the checks read through VERIF_REPO.
 cd /verif
 for d in seeded/*/; do
-  id=$(basename $d); P=${id^^}
+  id=$(basename $d); P=$(echo ${id^^} | cut -c1-3)
   props="$P $(cat $d/also 2>/dev/null)"
-  ./lib/seedrun.sh /verif/$d/patch.diff $props 2>&1 | grep -E 'exit=|does not|patch' | sed "s/^/$id: /" | cut -c1-260
+  ./lib/seedrun2.sh /verif/$d/patch.diff $props 2>&1 | grep -E 'exit=|does not|patch' | sed "s/^/$id: /" | cut -c1-260
 done
